@@ -111,8 +111,11 @@ func NewStats() *Stats {
 }
 
 func (s *Stats) Ratio(r float64, where string) {
-	if r != r || r > 1e30 {
-		r = 1e30 // NaN/Inf: keep the evidence encodable
+	if r != r {
+		return // 0/0 or Inf/Inf (an exact value beyond the double range against an infinite bound): nothing measurable
+	}
+	if r > 1e30 {
+		r = 1e30 // keep the evidence encodable
 	}
 	if r > s.MaxErrOverBound {
 		s.MaxErrOverBound = r
